@@ -14,6 +14,7 @@ import (
 	"strconv"
 	"strings"
 	"sync"
+	"sync/atomic"
 	"time"
 
 	"github.com/jdillenkofer/pithos/internal/storage/database"
@@ -73,13 +74,36 @@ func (g *c18Gates) pass(ctx context.Context, kind string) error {
 	}
 }
 
-type c18WorkerKey struct{}
+// parks a client's GetPartIds between its two reads (whichever read comes first in the code)
+type c18Mid struct {
+	armed  atomic.Bool
+	at     chan struct{}
+	permit chan struct{}
+}
+
+func (m *c18Mid) hit(ctx context.Context) {
+	if m == nil || !m.armed.CompareAndSwap(true, false) {
+		return
+	}
+	m.at <- struct{}{}
+	select {
+	case <-m.permit:
+	case <-ctx.Done():
+	}
+}
 
 type c18Repo struct {
 	partOutboxEntry.Repository
 	clock *c18Clock
 	gates *c18Gates // nil for the client-side instance
 	saved *[]string // entry ids saved by the current writer transaction
+	mid   *c18Mid
+}
+
+func (r *c18Repo) FindLastPartOutboxEntryGroupedByPartId(ctx context.Context, tx *sql.Tx, outboxId string) ([]partOutboxEntry.Entity, error) {
+	es, err := r.Repository.FindLastPartOutboxEntryGroupedByPartId(ctx, tx, outboxId)
+	r.mid.hit(ctx)
+	return es, err
 }
 
 func (r *c18Repo) SavePartOutboxEntry(ctx context.Context, tx *sql.Tx, outboxId string, e *partOutboxEntry.Entity) error {
@@ -142,6 +166,13 @@ func (d *c18DB) BeginTx(ctx context.Context, opts *sql.TxOptions) (*database.TxC
 type c18Inner struct {
 	partstore.PartStore
 	gates *c18Gates
+	mid   *c18Mid
+}
+
+func (i *c18Inner) GetPartIds(ctx context.Context, tx database.Tx) ([]partstore.PartId, error) {
+	ids, err := i.PartStore.GetPartIds(ctx, tx)
+	i.mid.hit(ctx)
+	return ids, err
 }
 
 func (i *c18Inner) Capabilities() partstore.Capabilities { return partstore.CapabilitiesOf(i.PartStore) }
@@ -489,10 +520,25 @@ func c18GenCase(r *Rng) string {
 			}
 		case x < 76:
 			emit(fmt.Sprintf("K%d", w))
-		case x < 80:
+		case x < 79:
 			emit(fmt.Sprintf("H%d", w))
-		case x < 94:
+		case x < 90:
 			emit(fmt.Sprintf("G%d", 1+r.Intn(npid)))
+		case x < 95:
+			// GetPartIds with flush steps between its two reads (no commit in between)
+			emit("B")
+			for j := r.Intn(7); j > 0; j-- {
+				w := r.Intn(nw)
+				switch y := r.Intn(100); {
+				case y < 80:
+					emit(next(w))
+				case y < 90:
+					emit(fmt.Sprintf("T%d", lease))
+				default:
+					emit(fmt.Sprintf("K%d", w))
+				}
+			}
+			emit("E")
 		default:
 			emit("I")
 		}
@@ -585,6 +631,12 @@ func (c18) Run(in string, scratch string) Result {
 	if sh.steal {
 		tags = append(tags, "steal", "kf:C18-lost-lease-replay-not-fenced")
 	}
+	for _, st := range steps {
+		if st.kind == 'B' {
+			tags = append(tags, "listing-two-reads")
+			break
+		}
+	}
 
 	db, err := c21OpenDB(scratch, filepath.Join(scratch, "db", "pithos.db"))
 	if err != nil {
@@ -605,7 +657,9 @@ func (c18) Run(in string, scratch string) Result {
 		return Result{Out: "SETUP-ERROR " + err.Error(), Oracle: "FAIL:setup"}
 	}
 	env := &c18Env{db: db, realRepo: realRepo, fs: fs, clock: &c18Clock{}, lease: lease, seq: map[string]int{}, workers: map[int]*c18Worker{}}
-	env.client, err = partOutbox.New(db, "default", &c18Inner{PartStore: fs}, &c18Repo{Repository: realRepo, clock: env.clock, saved: &env.saved}, prometheus.NewRegistry(), time.Duration(lease)*c18Unit)
+	mid := &c18Mid{at: make(chan struct{}, 1), permit: make(chan struct{})}
+	var listingRes chan string
+	env.client, err = partOutbox.New(db, "default", &c18Inner{PartStore: fs, mid: mid}, &c18Repo{Repository: realRepo, clock: env.clock, saved: &env.saved, mid: mid}, prometheus.NewRegistry(), time.Duration(lease)*c18Unit)
 	if err != nil {
 		return Result{Out: "SETUP-ERROR " + err.Error(), Oracle: "FAIL:setup"}
 	}
@@ -617,11 +671,45 @@ func (c18) Run(in string, scratch string) Result {
 		pidOf[id.String()] = p
 	}
 	defer func() {
+		if listingRes != nil {
+			close(mid.permit)
+			<-listingRes
+		}
 		for _, w := range env.workers {
 			w.cancel()
 			<-w.done
 		}
 	}()
+	listIDs := func() string {
+		var ids []partstore.PartId
+		err := database.WithTx(bg, db, &sql.TxOptions{ReadOnly: true}, func(ctx context.Context, tx database.Tx) error {
+			var err error
+			ids, err = env.client.GetPartIds(ctx, tx)
+			return err
+		})
+		if err != nil {
+			return c18ErrStr(err)
+		}
+		var ns []int
+		for _, id := range ids {
+			if p, ok := pidOf[id.String()]; ok {
+				ns = append(ns, p)
+			} else {
+				ns = append(ns, 9999)
+			}
+		}
+		sort.Ints(ns)
+		return "i" + c18Ints(ns)
+	}
+	committedIDs := func(committed map[int]int) string {
+		var want []int
+		for _, p := range pids {
+			if _, ok := committed[p]; ok {
+				want = append(want, p)
+			}
+		}
+		return "i" + c18Ints(want)
+	}
 
 	errRollback := errors.New("rollback")
 	committed := map[int]int{} // oracle: pid -> cid of the latest committed put (absent = no part)
@@ -748,6 +836,34 @@ func (c18) Run(in string, scratch string) Result {
 			}
 			if got != want && oracleFail == "" {
 				oracleFail = fmt.Sprintf("step %d GetPart(%d) returned %s, the latest committed operation says %s", i, st.n, got, want)
+			}
+		case 'B':
+			if listingRes != nil {
+				outs[i] = "-"
+				continue
+			}
+			mid.armed.Store(true)
+			ch := make(chan string, 1)
+			go func() { ch <- listIDs() }()
+			select {
+			case <-mid.at:
+				listingRes = ch
+				outs[i] = "ok"
+			case r := <-ch:
+				outs[i] = "NOTPARKED:" + r
+			case <-time.After(120 * time.Second):
+				outs[i] = "TIMEOUT"
+			}
+		case 'E':
+			if listingRes == nil {
+				outs[i] = "-"
+				continue
+			}
+			mid.permit <- struct{}{}
+			outs[i] = <-listingRes
+			listingRes = nil
+			if want := committedIDs(committed); outs[i] != want && oracleFail == "" {
+				oracleFail = fmt.Sprintf("step %d GetPartIds (two reads, flush in between) returned %s, committed parts are %s", i, outs[i], want)
 			}
 		case 'I':
 			var ids []partstore.PartId
